@@ -72,6 +72,8 @@ SEQS = {
     "n1": [("W", 0, 40), ("ON", 0), "W", ("OFF", 0), ("W", 0, 40)],
     "n2": [("W", 0, 40), ("ON", 0), ("W", 0, 40), ("ON", 1), "W", ("OFF", 0), ("W", 0, 40), ("OFF", 1)],
     "n2sim": [("ON", 0), ("ON", 1), "W", ("OFF", 0), ("OFF", 1)],
+    "rest": ["W"],
+    "sigonly": [("TS", 3, 4), "W", ("KSX",), "W"],
     "sig": [("TS", 3, 4), ("ON", 0), "W", ("KSX",), ("W", 0, 40), ("OFF", 0), ("TS", 6, 8), "W", ("ON", 1), "W", ("TS", 5, 4), ("OFF", 1)],
     "siglate": [("W", 1, 40), ("TS", 6, 8), ("ON", 0), "W", ("OFF", 0), ("KSX",), "W"],
 }
@@ -127,6 +129,8 @@ def queries(tier, seed):
     qs.append(q_saveload("one2", ["n2"], 0, 20))
     qs.append(q_saveload("two", ["n1", "n2sim"], 0, 20))
     qs.append(q_saveload("three", ["n1", "n1", "n1"], 0, 12))
+    qs.append(q_saveload("noteless_middle", ["n1", "rest", "n1"], 0, 12))
+    qs.append(q_saveload("sigonly_first", ["sigonly", "n1"], 13, 12))
     for k in keys:
         qs.append(q_saveload("sig", ["sig"], k, 12))
         qs.append(q_saveload("siglate+1", ["siglate", "n1"], k, 20))
